@@ -159,20 +159,36 @@ def spec_expected(d, truth):
 # case sources
 # --------------------------------------------------------------------------
 
-LEAVES = [(a, b) for a in "DU" for b in ("x", "x_0")]
-PARAMS = [[], ["x"], ["x_0"], ["x", "x_0"], ["y"], ["x_0", "y", "x"]]
+# Exhaustive families: `x` next to one lookalike of a suffixed `x`. `x_0` collides
+# with a key / printed form `name_suffix` (D20), `x0` with one that puts nothing
+# between name and suffix.
+FAMILIES = ["x_0", "x0"]
+SEPARATORS = ["_", "", "$", "__"]
 
 
-def exhaustive_cases(ctx, kmax, depth_of):
+def leaves_of(look):
+    return [(a, b) for a in "DU" for b in ("x", look)]
+
+
+def params_of(look):
+    return [[], ["x"], [look], ["x", look], ["y"], [look, "y", "x"]]
+
+
+def exhaustive_cases(ctx, kmax, depth_of, fam_kmax):
+    """Every scope forest with <= kmax leaves over {x, x_0}; the same over the
+    other families up to fam_kmax leaves."""
     rng = ctx.rng
-    for k in range(1, kmax + 1):
-        for f in G.forests(k, depth_of(k), LEAVES):
-            kind = "function" if rng.random() < 0.8 else "template"
-            counter = [0]
-            body = G.realise(f, rng, kind, counter)
-            if kind == "function":
-                body.append(('ret', ('n', 0)))
-            yield {"d": (kind, "f", list(rng.choice(PARAMS)), body), "clean": False, "src": "forest k=%d" % k}
+    for look in FAMILIES:
+        top = kmax if look == FAMILIES[0] else min(kmax, fam_kmax)
+        for k in range(1, top + 1):
+            for f in G.forests(k, depth_of(k), leaves_of(look)):
+                kind = "function" if rng.random() < 0.8 else "template"
+                counter = [0]
+                body = G.realise(f, rng, kind, counter)
+                if kind == "function":
+                    body.append(('ret', ('n', 0)))
+                yield {"d": (kind, "f", list(rng.choice(params_of(look))), body), "clean": False,
+                       "src": "forest k=%d %s" % (k, look)}
 
 
 def random_cases(ctx, n):
@@ -203,7 +219,7 @@ class Stats:
         self.disagreements = []
         self.failing = []
         self.hist = {"declarations": {}, "shadow_reports": {}, "source": {}, "ssa": {}, "kind": {}}
-        self.collision_sensitive = 0
+        self.collision_sensitive = {}
         self.param_collisions = 0
         self.samples = []
 
@@ -267,8 +283,9 @@ def run_batch(cases, bins, st):
         if any("." in t for t in ren):
             st.shapes.add(re.sub(r" \d+ \d+ ", " ", c["P"]))
         lifted = set(t.split("=", 1)[1] for t in real.get("ir", []) if "=" in t)
-        if any(("%s_%s/-" % tuple(v.split("/"))) in lifted for v in lifted if not v.endswith("/-")):
-            st.collision_sensitive += 1
+        for sep in SEPARATORS:
+            if any((sep.join(v.split("/"))) + "/-" in lifted for v in lifted if not v.endswith("/-")):
+                st.collision_sensitive[sep] = st.collision_sensitive.get(sep, 0) + 1
         if len(st.samples) < 3 and len(truth["shadows"]) >= 2 and c["src"] == "random":
             st.samples.append({"source": c["text"], "impl": li[:600]})
 
@@ -406,7 +423,7 @@ def run(ctx, proofs):
     depth_of = (lambda k: 3) if quick else (lambda k: 3 if k <= 4 else 2)
     batch = []
     n_exh = 0
-    for c in exhaustive_cases(ctx, kmax, depth_of):
+    for c in exhaustive_cases(ctx, kmax, depth_of, 4):
         batch.append(c)
         n_exh += 1
         if len(batch) >= BATCH:
@@ -457,17 +474,18 @@ def run(ctx, proofs):
         "rule": "evaluations = definitions run through parser + ensure_unique_variables + into_cfg + into_ssa, the extracted mirror, the "
                 "extracted resolver and the oracle. distinct_nontrivial = distinct named projections (locations removed) in which the pass "
                 "renamed at least one occurrence. Exhaustive part: every scope forest with <= %d leaves (leaf = declaration or use/assignment of "
-                "x or x_0; blocks nested to depth %s, never a block holding a single block), each realised once with a seeded choice of block "
+                "x or x_0, and again with x0 in the place of x_0 up to 4 leaves; blocks nested to depth %s, never a block holding a single block), each realised once with a seeded choice of block "
                 "kind (plain / while / if / if-else), statement form and parameter list from %s. Random part: %d definitions, 3..26 declarations/"
-                "uses, names from %s, depth <= 4, functions and templates (signals, components), for loops, multiple declarators, dimension "
+                "uses, names x, y and one to three lookalikes of a suffixed x from %s, depth <= 4, functions and templates (signals, components), for loops, multiple declarators, dimension "
                 "expressions, array accesses, compound assignments, tuples and anonymous components; half of them all-initialised functions."
-                % (kmax, "3" if quick else "3 (k<=4) / 2 (k=5)", PARAMS, n_rand, G.NAMES),
+                % (kmax, "3" if quick else "3 (k<=4) / 2 (k=5)", params_of("x_0"), n_rand, G.LOOKALIKES),
         "exhaustive": False,
         "exhaustive_part": "%d scope forests (all with <= %d leaves)" % (n_exh, kmax),
         "samples": st.samples if not st.disagreements else [st.disagreements[0]],
         "distribution": st.hist,
         "collision_sensitive_cases": st.collision_sensitive,
-        "collision_sensitive_rule": "cases in which some variable lifts to (n, s) while the identifier n_s is used as well (the D20 pattern)",
+        "collision_sensitive_rule": "per separator S in %r: cases in which some variable lifts to (n, s) while the identifier n S s occurs as "
+                                    "well (`_`: the D20 pattern; empty: a key that concatenates name and suffix)" % (SEPARATORS,),
         "parameter_collisions": st.param_collisions,
         "corpus_cases": len(corpus),
         "corpus_failing": corpus_failing,
